@@ -1,0 +1,47 @@
+//go:build verif
+
+package salsa
+
+// Contracts for govc (/verif). Comments only.
+//
+// spec.sks(k, n, c, j) is byte j of the Salsa20/20 block for key object k,
+// nonce n and block counter c (both 64-bit little-endian values). The core
+// is not interpreted; the contract of genericXORKeyStream decides which
+// block byte meets which input byte, including the carry of the block
+// counter through all eight counter bytes (mod 2^64).
+
+//@ pred le64(a, o) = a[o] + a[o+1]*256 + a[o+2]*65536 + a[o+3]*16777216 + a[o+4]*4294967296 + a[o+5]*1099511627776 + a[o+6]*281474976710656 + a[o+7]*72057594037927936
+
+//@ func core
+//@ props C09
+//@ trusted
+//@ note Salsa20 core over 32-bit words: not verified; assumed to write only *out, the block for (key, nonce, counter)
+//@ nonnil out in k c
+//@ modifies *out
+//@ ensures forall(j, 0, 64, out[j] == spec.sks(ref(k[:]), le64(in, 0), le64(in, 8), j))
+
+//@ func genericXORKeyStream
+//@ props C09
+//@ nonnil counter key
+//@ requires len(out) >= len(in)
+//@ requires !(sameobj(out, in) && len(in) > 0 && off(out) != off(in) && off(out) < off(in) + len(in) && off(in) < off(out) + len(in))
+//@ requires ref(out) != ref(counter[:]) && ref(out) != ref(key[:])
+//@ reindex
+//@ modifies out[0:len(in)]
+//@ ensures forall(i, 0, len(in), out[i] == old(in[i]) ^ spec.sks(ref(key[:]), le64(counter, 0), (le64(counter, 8) + i / 64) % 18446744073709551616, i % 64))
+//@ ensures forall(j, 0, 16, counter[j] == old(counter[j]))
+//@ loop 1 invariant len(in) <= len(entry(in)) && (len(entry(in)) - len(in)) % 64 == 0 && len(out) - len(in) == len(entry(out)) - len(entry(in))
+//@ loop 1 invariant off(in) + len(in) == off(entry(in)) + len(entry(in)) && off(out) + len(out) == off(entry(out)) + len(entry(out))
+//@ loop 1 invariant le64(counterCopy, 0) == le64(counter, 0) && le64(counterCopy, 8) == (le64(counter, 8) + (len(entry(in)) - len(in)) / 64) % 18446744073709551616
+//@ loop 1 invariant forall(i, 0, len(entry(in)) - len(in), entry(out)[i] == before(entry(in)[i]) ^ spec.sks(ref(key[:]), le64(counter, 0), (le64(counter, 8) + i / 64) % 18446744073709551616, i % 64))
+//@ loop 1 invariant forall(i, 0, len(in), in[i] == before(in[i]))
+//@ loop 1 invariant sameoutside(entry(out)[0:len(entry(in))]) && forall(j, 0, 16, counter[j] == before(counter[j]))
+//@ loop 2 invariant -1 <= rangeindex && rangeindex < 64
+//@ loop 2 invariant forall(k, 0, rangeindex + 1, out[k] == before(in[k]) ^ block[k])
+//@ loop 2 invariant forall(k, rangeindex + 1, len(in), in[k] == before(in[k]))
+//@ loop 2 invariant keptoutside(out[0:64])
+//@ loop 4 invariant -1 <= rangeindex && rangeindex < len(in)
+//@ loop 4 invariant forall(k, 0, rangeindex + 1, out[k] == before(in[k]) ^ block[k])
+//@ loop 4 invariant forall(k, rangeindex + 1, len(in), in[k] == before(in[k]))
+//@ loop 4 invariant keptoutside(out[0:len(in)])
+//@ canary ensures len(in) == 0
